@@ -176,3 +176,694 @@ theorem edgeTerm_neg (n qp : V3 ℝ) (qsq : ℝ) (vw : V3 ℝ × V3 ℝ) :
   ext <;> simp
 
 end FF
+
+/-! ### cyclic lists: `roll1`, reversal, rotation -/
+namespace FF
+
+theorem roll1_eq_rotate {β : Type} (l : List β) : roll1 l = l.rotate 1 := by
+  cases l with
+  | nil => rfl
+  | cons a l => simp [roll1, List.rotate_cons_succ]
+
+theorem roll1_map {β γ : Type} (f : β → γ) (l : List β) : roll1 (l.map f) = (roll1 l).map f := by
+  cases l <;> simp [roll1]
+
+theorem edgesOf_map (f : V3 ℝ → V3 ℝ) (vs : List (V3 ℝ)) :
+    edgesOf (vs.map f) = (edgesOf vs).map (Prod.map f f) := by
+  unfold edgesOf; rw [roll1_map, List.zip_map]
+
+/-- zipping co-rotated lists of equal length is a permutation of the zip -/
+theorem zip_rotate_perm {β γ : Type} (A : List β) (B : List γ) (h : A.length = B.length) (k : ℕ) :
+    (List.zip (A.rotate k) (B.rotate k)).Perm (List.zip A B) := by
+  rw [List.zip_eq_zipWith, List.zip_eq_zipWith, ← List.zipWith_rotate_distrib Prod.mk A B k h]
+  exact List.rotate_perm _ k
+
+theorem zip_reverse {β γ : Type} (A : List β) (B : List γ) (h : A.length = B.length) :
+    List.zip A.reverse B.reverse = (List.zip A B).reverse := by
+  rw [List.zip_eq_zipWith, List.zip_eq_zipWith, List.reverse_zipWith h]
+
+theorem rotate_reverse_of_lt {β : Type} (l : List β) (k : ℕ) (hk : k < l.length) :
+    l.reverse.rotate k = (l.rotate (l.length - k)).reverse := by
+  rw [List.rotate_reverse, Nat.mod_eq_of_lt hk]
+
+theorem rotate_sub_add {β : Type} (l : List β) (k : ℕ) (hk : k ≤ l.length) :
+    (l.rotate (l.length - k)).rotate k = l := by
+  rw [List.rotate_rotate, Nat.sub_add_cancel hk, List.rotate_length]
+
+/-- the directed edges of the reversed vertex list are the reversed edges, up to order -/
+theorem edges_reverse_perm {β : Type} (l : List β) :
+    (List.zip l.reverse (l.reverse.rotate 1)).Perm ((List.zip l (l.rotate 1)).map Prod.swap) := by
+  rcases l with _ | ⟨a, _ | ⟨b, l⟩⟩
+  · simp
+  · simp
+  · set L := a :: b :: l with hL
+    have hlen : 1 < L.length := by simp [hL]
+    rw [rotate_reverse_of_lt L 1 hlen, zip_reverse L _ (by simp), List.zip_swap]
+    refine (List.reverse_perm _).trans ?_
+    have := zip_rotate_perm L (L.rotate (L.length - 1)) (by simp) 1
+    rw [rotate_sub_add L 1 hlen.le] at this
+    exact this.symm
+
+/-- the consecutive triples of the reversed list, arranged as the model's `signed_area` zips them -/
+theorem triples_reverse_perm {β : Type} (l : List β) (h : 2 < l.length) :
+    (List.zip (l.reverse.rotate 1) (List.zip (l.reverse.rotate 2) l.reverse)).Perm
+      (List.zip (l.rotate 1) (List.zip l (l.rotate 2))) := by
+  rw [rotate_reverse_of_lt l 1 (by omega), rotate_reverse_of_lt l 2 h,
+    zip_reverse _ l (by simp), zip_reverse _ _ (by simp)]
+  refine (List.reverse_perm _).trans ?_
+  have h1 := zip_rotate_perm (l.rotate (l.length - 1)) (List.zip (l.rotate (l.length - 2)) l) (by simp) 2
+  refine h1.symm.trans ?_
+  have e1 : (l.rotate (l.length - 1)).rotate 2 = l.rotate 1 := by
+    rw [List.rotate_rotate, ← List.rotate_mod]
+    congr 1
+    have : l.length - 1 + 2 = 1 + l.length := by omega
+    rw [this, Nat.add_mod_right, Nat.mod_eq_of_lt (by omega)]
+  have e2 : (List.zip (l.rotate (l.length - 2)) l).rotate 2 = List.zip l (l.rotate 2) := by
+    rw [List.zip_eq_zipWith, List.zipWith_rotate_distrib Prod.mk _ _ 2 (by simp), rotate_sub_add l 2 h.le,
+      ← List.zip_eq_zipWith]
+  rw [e1, e2]
+
+end FF
+
+/-! ### the shoelace sum of `Polygon.signed_area` -/
+namespace FF
+
+theorem sum_map_add' {β : Type} (f g : β → ℝ) (l : List β) :
+    (l.map fun x => f x + g x).sum = (l.map f).sum + (l.map g).sum := by
+  induction l with
+  | nil => simp
+  | cons a l ih => simp only [List.map_cons, List.sum_cons, ih]; ring
+
+theorem sum_map_sub' {β : Type} (f g : β → ℝ) (l : List β) :
+    (l.map fun x => f x - g x).sum = (l.map f).sum - (l.map g).sum := by
+  induction l with
+  | nil => simp
+  | cons a l ih => simp only [List.map_cons, List.sum_cons, ih]; ring
+
+theorem sum_map_neg' {β : Type} (f : β → ℝ) (l : List β) :
+    (l.map fun x => -f x).sum = -(l.map f).sum := by
+  induction l with
+  | nil => simp
+  | cons a l ih => simp only [List.map_cons, List.sum_cons, ih]; ring
+
+theorem sum_map_mul' {β : Type} (c : ℝ) (f : β → ℝ) (l : List β) :
+    (l.map fun x => c * f x).sum = c * (l.map f).sum := by
+  induction l with
+  | nil => simp
+  | cons a l ih => simp only [List.map_cons, List.sum_cons, ih]; ring
+
+theorem get_add (u v : V3 ℝ) (i : Nat) : (u + v).get i = u.get i + v.get i := by
+  unfold V3.get; split_ifs <;> simp
+
+/-- `Σ_i v_{i+1}[c1] · (v_{i+2}[c2] − v_i[c2])` (cyclic) -/
+noncomputable def saSum (c1 c2 : Nat) (vs : List (V3 ℝ)) : ℝ :=
+  ((List.zip (vs.rotate 1) (List.zip (vs.rotate 2) vs)).map
+    fun t => t.1.get c1 * (t.2.1.get c2 - t.2.2.get c2)).sum
+
+theorem signedArea_eq (vs : List (V3 ℝ)) (n : V3 ℝ) :
+    signedArea vs n =
+      saSum ((argmaxAbs n + 1) % 3) ((argmaxAbs n + 2) % 3) vs *
+        (V3.norm ⟨|n.x|, |n.y|, |n.z|⟩ / (2 * n.get (argmaxAbs n))) := by
+  unfold signedArea saSum
+  simp only [Scalar.sum_real, roll1_eq_rotate, List.rotate_rotate, Scalar.abs_real, Scalar.lit,
+    Scalar.ofNat_real, Nat.cast_ofNat]
+  congr 2
+  rw [← List.map_uncurry_zip_eq_zipWith]
+  rfl
+
+theorem saSum_small (c1 c2 : Nat) (vs : List (V3 ℝ)) (h : vs.length ≤ 2) : saSum c1 c2 vs = 0 := by
+  rcases vs with _ | ⟨a, _ | ⟨b, _ | ⟨c, l⟩⟩⟩
+  · simp [saSum]
+  · simp [saSum]
+  · simp [saSum, List.rotate_cons_succ]
+  · simp at h
+
+theorem saSum_reverse (c1 c2 : Nat) (vs : List (V3 ℝ)) :
+    saSum c1 c2 vs.reverse = -saSum c1 c2 vs := by
+  by_cases h : vs.length ≤ 2
+  · rw [saSum_small c1 c2 vs h, saSum_small c1 c2 vs.reverse (by simpa using h)]; simp
+  · have hp := triples_reverse_perm vs (by omega)
+    unfold saSum
+    rw [(hp.map _).sum_eq, ← sum_map_neg']
+    have : List.zip (vs.rotate 1) (List.zip vs (vs.rotate 2)) =
+        (List.zip (vs.rotate 1) (List.zip (vs.rotate 2) vs)).map (Prod.map id Prod.swap) := by
+      rw [← List.zip_swap (vs.rotate 2) vs]
+      conv_rhs => rw [← List.zip_map, List.map_id]
+    rw [this, List.map_map]
+    congr 1
+    apply List.map_congr_left
+    intro t _
+    simp only [Function.comp_apply, Prod.map, id, Prod.swap]
+    ring
+
+theorem saSum_translate (c1 c2 : Nat) (vs : List (V3 ℝ)) (t : V3 ℝ) :
+    saSum c1 c2 (vs.map (· + t)) = saSum c1 c2 vs := by
+  unfold saSum
+  rw [← List.map_rotate, ← List.map_rotate, List.zip_map, List.zip_map, List.map_map]
+  have hfun : ((fun s : V3 ℝ × V3 ℝ × V3 ℝ => s.1.get c1 * (s.2.1.get c2 - s.2.2.get c2)) ∘
+        Prod.map (· + t) (Prod.map (· + t) (· + t))) =
+      fun s => s.1.get c1 * (s.2.1.get c2 - s.2.2.get c2) + t.get c1 * (s.2.1.get c2 - s.2.2.get c2) := by
+    funext s; simp only [Function.comp_apply, Prod.map, get_add]; ring
+  rw [hfun, sum_map_add', sum_map_mul']
+  have hz : ((List.zip (vs.rotate 1) (List.zip (vs.rotate 2) vs)).map
+      fun s => s.2.1.get c2 - s.2.2.get c2).sum = 0 := by
+    have e1 : ((List.zip (vs.rotate 1) (List.zip (vs.rotate 2) vs)).map
+        fun s => s.2.1.get c2 - s.2.2.get c2) =
+        ((List.zip (vs.rotate 2) vs).map fun s => s.1.get c2 - s.2.get c2) := by
+      have := List.map_snd_zip (l₁ := vs.rotate 1) (l₂ := List.zip (vs.rotate 2) vs) (by simp)
+      conv_rhs => rw [← this, List.map_map]
+      rfl
+    rw [e1, sum_map_sub']
+    have e2 : ((List.zip (vs.rotate 2) vs).map fun s => s.1.get c2) = (vs.rotate 2).map (·.get c2) := by
+      have := List.map_fst_zip (l₁ := vs.rotate 2) (l₂ := vs) (by simp)
+      conv_rhs => rw [← this, List.map_map]
+      rfl
+    have e3 : ((List.zip (vs.rotate 2) vs).map fun s => s.2.get c2) = vs.map (·.get c2) := by
+      have := List.map_snd_zip (l₁ := vs.rotate 2) (l₂ := vs) (by simp)
+      conv_rhs => rw [← this, List.map_map]
+      rfl
+    rw [e2, e3, ((List.rotate_perm vs 2).map _).sum_eq]; ring
+  rw [hz]; ring
+
+theorem signedArea_reverse (vs : List (V3 ℝ)) (n : V3 ℝ) :
+    signedArea vs.reverse n = -signedArea vs n := by
+  rw [signedArea_eq, signedArea_eq, saSum_reverse]; ring
+
+theorem signedArea_translate (vs : List (V3 ℝ)) (n t : V3 ℝ) :
+    signedArea (vs.map (· + t)) n = signedArea vs n := by
+  rw [signedArea_eq, signedArea_eq, saSum_translate]
+
+theorem polygonArea_reverse (vs : List (V3 ℝ)) (n : V3 ℝ) :
+    polygonArea vs.reverse n = polygonArea vs n := by
+  unfold polygonArea; rw [signedArea_reverse]; simp
+
+theorem polygonArea_translate (vs : List (V3 ℝ)) (n t : V3 ℝ) :
+    polygonArea (vs.map (· + t)) n = polygonArea vs n := by
+  unfold polygonArea; rw [signedArea_translate]
+
+end FF
+
+/-! ### polygon: conjugation, reversal, translation, density -/
+namespace FF
+
+theorem polygonNonzero_neg (vs : List (V3 ℝ)) (n qp : V3 ℝ) :
+    polygonNonzero vs n (-qp) = Cx.conj (polygonNonzero vs n qp) := by
+  unfold polygonNonzero
+  rw [dot_neg_neg]
+  have : (edgesOf vs).map (edgeTerm n (-qp) (V3.dot qp qp)) =
+      (edgesOf vs).map fun vw => Cx.conj (edgeTerm n qp (V3.dot qp qp) vw) :=
+    List.map_congr_left fun vw _ => edgeTerm_neg n qp _ vw
+  rw [this, Cx.sum_map_conj]
+  ext <;> simp
+
+theorem polygonFF_neg (vs : List (V3 ℝ)) (n qv : V3 ℝ) (rho : ℝ) :
+    polygonFF vs n (-qv) rho = Cx.conj (polygonFF vs n qv rho) := by
+  unfold polygonFF
+  simp only [project_neg, dot_neg_neg]
+  split_ifs
+  · ext <;> simp
+  · rw [polygonNonzero_neg]; ext <;> simp
+
+theorem edgeAmp_swap (n qp : V3 ℝ) (qsq : ℝ) (vw : V3 ℝ × V3 ℝ) :
+    edgeAmp n qp qsq vw.swap = -edgeAmp n qp qsq vw := by
+  obtain ⟨v, w⟩ := vw
+  unfold edgeAmp
+  simp only [Prod.swap]
+  have h1 : v - w = -(w - v) := by ext <;> simp
+  rw [h1]
+  have h2 : V3.cross (-(w - v)) qp = -(V3.cross (w - v) qp) := by
+    obtain ⟨x, y, z⟩ := qp
+    ext <;> simp [V3.cross] <;> ring
+  rw [h2, dot_neg_left, dot_neg_left]
+  have h3 : 1 / 2 * -V3.dot (w - v) qp / Real.pi = -(1 / 2 * V3.dot (w - v) qp / Real.pi) := by ring
+  rw [h3, npSinc_neg]; ring
+
+theorem edgePhase_swap (qp : V3 ℝ) (vw : V3 ℝ × V3 ℝ) : edgePhase qp vw.swap = edgePhase qp vw := by
+  obtain ⟨v, w⟩ := vw
+  unfold edgePhase
+  simp only [Prod.swap]
+  have : w + v = v + w := by ext <;> simp <;> ring
+  rw [this]
+
+theorem edgeTerm_swap (n qp : V3 ℝ) (qsq : ℝ) (vw : V3 ℝ × V3 ℝ) :
+    edgeTerm n qp qsq vw.swap = Cx.neg (edgeTerm n qp qsq vw) := by
+  rw [edgeTerm_eq, edgeTerm_eq, edgeAmp_swap, edgePhase_swap]
+  ext <;> simp
+
+theorem edgesOf_reverse_perm (vs : List (V3 ℝ)) :
+    (edgesOf vs.reverse).Perm ((edgesOf vs).map Prod.swap) := by
+  unfold edgesOf
+  rw [roll1_eq_rotate, roll1_eq_rotate]
+  exact edges_reverse_perm vs
+
+theorem polygonNonzero_reverse (vs : List (V3 ℝ)) (n qp : V3 ℝ) :
+    polygonNonzero vs.reverse n qp = polygonNonzero vs n qp := by
+  unfold polygonNonzero
+  rw [Cx.sum_perm ((edgesOf_reverse_perm vs).map _), List.map_map, signedArea_reverse, sign_neg]
+  have : (edgeTerm n qp (V3.dot qp qp) ∘ Prod.swap) = fun vw => Cx.neg (edgeTerm n qp (V3.dot qp qp) vw) := by
+    funext vw; exact edgeTerm_swap n qp _ vw
+  rw [this, Cx.sum_map_neg]
+  ext <;> simp
+
+theorem polygonFF_reverse (vs : List (V3 ℝ)) (n qv : V3 ℝ) (rho : ℝ) :
+    polygonFF vs.reverse n qv rho = polygonFF vs n qv rho := by
+  unfold polygonFF
+  simp only [polygonNonzero_reverse, polygonArea_reverse]
+
+theorem edgeAmp_translate (n qp t : V3 ℝ) (qsq : ℝ) (vw : V3 ℝ × V3 ℝ) :
+    edgeAmp n qp qsq (Prod.map (· + t) (· + t) vw) = edgeAmp n qp qsq vw := by
+  obtain ⟨v, w⟩ := vw
+  unfold edgeAmp
+  simp only [Prod.map]
+  have : w + t - (v + t) = w - v := by ext <;> simp
+  rw [this]
+
+theorem edgePhase_translate (qp t : V3 ℝ) (vw : V3 ℝ × V3 ℝ) :
+    edgePhase qp (Prod.map (· + t) (· + t) vw) = edgePhase qp vw + V3.dot t qp := by
+  obtain ⟨⟨vx, vy, vz⟩, ⟨wx, wy, wz⟩⟩ := vw
+  obtain ⟨tx, ty, tz⟩ := t
+  obtain ⟨x, y, z⟩ := qp
+  unfold edgePhase
+  simp [V3.dot, Prod.map]; ring
+
+theorem edgeTerm_translate (n qp t : V3 ℝ) (qsq : ℝ) (vw : V3 ℝ × V3 ℝ) :
+    edgeTerm n qp qsq (Prod.map (· + t) (· + t) vw) =
+      Cx.mul (edgeTerm n qp qsq vw) (Cx.expNegI (V3.dot t qp)) := by
+  rw [edgeTerm_eq, edgeTerm_eq, edgeAmp_translate, edgePhase_translate, Real.sin_add, Real.cos_add]
+  ext <;> simp <;> ring
+
+theorem polygonNonzero_translate (vs : List (V3 ℝ)) (n qp t : V3 ℝ) :
+    polygonNonzero (vs.map (· + t)) n qp =
+      Cx.mul (polygonNonzero vs n qp) (Cx.expNegI (V3.dot t qp)) := by
+  unfold polygonNonzero
+  rw [edgesOf_map, List.map_map, signedArea_translate]
+  have : (edgeTerm n qp (V3.dot qp qp) ∘ Prod.map (· + t) (· + t)) =
+      fun vw => Cx.mul (edgeTerm n qp (V3.dot qp qp) vw) (Cx.expNegI (V3.dot t qp)) := by
+    funext vw; exact edgeTerm_translate n qp t _ vw
+  rw [this, Cx.sum_map_mul_right]
+  ext <;> simp <;> ring
+
+theorem polygonFF_translate (vs : List (V3 ℝ)) (n qv t : V3 ℝ) (rho : ℝ)
+    (h : isCloseZero (V3.dot (project n qv) (project n qv)) = false ∨ V3.dot t (project n qv) = 0) :
+    polygonFF (vs.map (· + t)) n qv rho =
+      Cx.mul (polygonFF vs n qv rho) (Cx.expNegI (V3.dot t (project n qv))) := by
+  unfold polygonFF
+  simp only [polygonArea_translate]
+  by_cases hz : isCloseZero (V3.dot (project n qv) (project n qv)) = true
+  · have h0 : V3.dot t (project n qv) = 0 := by
+      rcases h with h | h
+      · rw [hz] at h; cases h
+      · exact h
+    simp only [hz, if_true, h0]
+    ext <;> simp
+  · simp only [hz, if_false, Bool.false_eq_true, polygonNonzero_translate]
+    ext <;> simp <;> ring
+
+theorem polygonFF_density (vs : List (V3 ℝ)) (n qv : V3 ℝ) (rho : ℝ) :
+    polygonFF vs n qv rho = Cx.smul rho (polygonFF vs n qv 1) := by
+  unfold polygonFF
+  ext <;> simp
+
+end FF
+
+/-! ### polyhedron -/
+namespace FF
+
+theorem expNegI_add (a b : ℝ) : Cx.expNegI (a + b) = Cx.mul (Cx.expNegI a) (Cx.expNegI b) := by
+  ext <;> simp [Real.cos_add, Real.sin_add]
+
+theorem expNegI_zero : Cx.expNegI (0 : ℝ) = ⟨1, 0⟩ := by
+  ext <;> simp
+
+theorem faceTerm_neg (qv : V3 ℝ) (qsq : ℝ) (f : Face ℝ) :
+    faceTerm (-qv) qsq f = Cx.conj (faceTerm qv qsq f) := by
+  unfold faceTerm
+  simp only [polygonFF_neg, dot_neg_left]
+  ext <;> simp <;> ring
+
+theorem polyhedronNonzero_neg (faces : List (Face ℝ)) (qv : V3 ℝ) :
+    polyhedronNonzero faces (-qv) = Cx.conj (polyhedronNonzero faces qv) := by
+  unfold polyhedronNonzero
+  rw [dot_neg_neg]
+  have : faces.map (faceTerm (-qv) (V3.dot qv qv)) =
+      faces.map fun f => Cx.conj (faceTerm qv (V3.dot qv qv) f) :=
+    List.map_congr_left fun f _ => faceTerm_neg qv _ f
+  rw [this, Cx.sum_map_conj]
+
+theorem polyhedronFF_neg (faces : List (Face ℝ)) (vol : ℝ) (qv : V3 ℝ) (rho : ℝ) :
+    polyhedronFF faces vol (-qv) rho = Cx.conj (polyhedronFF faces vol qv rho) := by
+  unfold polyhedronFF
+  simp only [dot_neg_neg]
+  split_ifs
+  · ext <;> simp
+  · rw [polyhedronNonzero_neg]; ext <;> simp
+
+/-- the face of the translated solid: same normal, `eqn[3] = -n·(v0 + t)` -/
+noncomputable def Face.translate (t : V3 ℝ) (f : Face ℝ) : Face ℝ :=
+  ⟨f.verts.map (· + t), f.normal, f.off - V3.dot f.normal t⟩
+
+theorem sdiv_one (u : V3 ℝ) : V3.sdiv u 1 = u := by ext <;> simp
+
+theorem dot_project_add (n qv t : V3 ℝ) :
+    V3.dot t (project n qv) + V3.dot qv n * V3.dot n t = V3.dot t qv := by
+  obtain ⟨nx, ny, nz⟩ := n; obtain ⟨qx, qy, qz⟩ := qv; obtain ⟨tx, ty, tz⟩ := t
+  simp [project, V3.dot]; ring
+
+theorem faceTerm_translate (qv t : V3 ℝ) (qsq : ℝ) (f : Face ℝ) (hunit : V3.norm f.normal = 1)
+    (h : isCloseZero (V3.dot (project f.normal qv) (project f.normal qv)) = false ∨
+      V3.dot t (project f.normal qv) = 0) :
+    faceTerm qv qsq (Face.translate t f) = Cx.mul (faceTerm qv qsq f) (Cx.expNegI (V3.dot t qv)) := by
+  unfold faceTerm Face.translate
+  simp only [hunit, sdiv_one]
+  rw [polygonFF_translate f.verts f.normal qv t _ h, ← dot_project_add f.normal qv t, expNegI_add]
+  have : V3.dot qv f.normal * -(f.off - V3.dot f.normal t) =
+      V3.dot qv f.normal * -f.off + V3.dot qv f.normal * V3.dot f.normal t := by ring
+  rw [this, expNegI_add]
+  ext <;> simp <;> ring
+
+theorem polyhedronNonzero_translate (faces : List (Face ℝ)) (qv t : V3 ℝ)
+    (hunit : ∀ f ∈ faces, V3.norm f.normal = 1)
+    (h : ∀ f ∈ faces, isCloseZero (V3.dot (project f.normal qv) (project f.normal qv)) = false ∨
+      V3.dot t (project f.normal qv) = 0) :
+    polyhedronNonzero (faces.map (Face.translate t)) qv =
+      Cx.mul (polyhedronNonzero faces qv) (Cx.expNegI (V3.dot t qv)) := by
+  unfold polyhedronNonzero
+  rw [List.map_map, ← Cx.sum_map_mul_right]
+  congr 1
+  apply List.map_congr_left
+  intro f hf
+  exact faceTerm_translate qv t _ f (hunit f hf) (h f hf)
+
+theorem polyhedronFF_density (faces : List (Face ℝ)) (vol : ℝ) (qv : V3 ℝ) (rho : ℝ) :
+    polyhedronFF faces vol qv rho = Cx.smul rho (polyhedronFF faces vol qv 1) := by
+  unfold polyhedronFF
+  ext <;> simp
+
+/-! ### sphere -/
+
+theorem sphereFF_neg (r : ℝ) (c qv : V3 ℝ) (rho : ℝ) :
+    sphereFF r c (-qv) rho = Cx.conj (sphereFF r c qv rho) := by
+  unfold sphereFF
+  simp only [dot_neg_neg]
+  rw [dot_neg_left]
+  ext <;> simp
+
+theorem dot_add_right (u v w : V3 ℝ) : V3.dot u (v + w) = V3.dot u v + V3.dot u w := by
+  obtain ⟨x, y, z⟩ := u; obtain ⟨a, b, c⟩ := v; obtain ⟨d, e, f⟩ := w
+  simp [V3.dot]; ring
+
+theorem sphereFF_translate (r : ℝ) (c qv t : V3 ℝ) (rho : ℝ) :
+    sphereFF r (c + t) qv rho = Cx.mul (sphereFF r c qv rho) (Cx.expNegI (V3.dot qv t)) := by
+  unfold sphereFF
+  simp only [dot_add_right, expNegI_add]
+  ext <;> simp <;> split_ifs <;> ring
+
+theorem sphereFF_density (r : ℝ) (c qv : V3 ℝ) (rho : ℝ) :
+    sphereFF r c qv rho = Cx.smul rho (sphereFF r c qv 1) := by
+  unfold sphereFF
+  ext <;> simp <;> split_ifs <;> ring
+
+/-! ### batches: the masked NumPy computation is the map of the single-vector function -/
+
+theorem scatter_selectNot {β γ : Type} (z : γ) (p : β → Bool) (g : β → γ) (xs : List β) :
+    scatter z (xs.map p) ((selectNot (xs.map p) xs).map g) = xs.map fun x => if p x then z else g x := by
+  induction xs with
+  | nil => rfl
+  | cons x xs ih =>
+    by_cases hp : p x = true
+    · simp [scatter, selectNot, hp, ih]
+    · simp only [Bool.not_eq_true] at hp
+      simp [scatter, selectNot, hp, ih]
+
+end FF
+
+/-! ### the model's edge sum is the boundary (Green) form of the specification -/
+namespace FF
+
+theorem cyclicPairs_go (first a : V3 ℝ) (l : List (V3 ℝ)) :
+    Spec.cyclicPairs.go first a l = List.zip (a :: l) (l ++ [first]) := by
+  induction l generalizing a with
+  | nil => simp [Spec.cyclicPairs.go]
+  | cons b l ih => simp [Spec.cyclicPairs.go, ih]
+
+theorem cyclicPairs_eq_edgesOf (vs : List (V3 ℝ)) : Spec.cyclicPairs vs = edgesOf vs := by
+  cases vs with
+  | nil => rfl
+  | cons v l => simp [Spec.cyclicPairs, cyclicPairs_go, edgesOf, roll1]
+
+theorem npSinc_eq_sinc (b : ℝ) : npSinc (1 / 2 * b / Real.pi) = Spec.sinc (b / 2) := by
+  unfold npSinc Spec.sinc
+  have hpi : Real.pi ≠ 0 := Real.pi_ne_zero
+  simp only [eqb_real, Scalar.lit, Scalar.ofNat_real, Nat.cast_zero, Nat.cast_one, decide_eq_true_eq,
+    Scalar.sin_real, Scalar.pi_real]
+  have e : Real.pi * (1 / 2 * b / Real.pi) = b / 2 := by field_simp
+  by_cases hb : b = 0
+  · subst hb; simp
+  · have h1 : 1 / 2 * b / Real.pi ≠ 0 := by
+      intro h; apply hb; field_simp at h; linarith
+    have h2 : b / 2 ≠ 0 := by intro h; apply hb; linarith
+    simp only [h1, h2, if_false, e]
+
+theorem triple_swap (e qp n : V3 ℝ) : V3.dot (V3.cross e qp) n = -V3.dot qp (V3.cross e n) := by
+  obtain ⟨a, b, c⟩ := e; obtain ⟨x, y, z⟩ := qp; obtain ⟨u, v, w⟩ := n
+  simp [V3.dot, V3.cross]; ring
+
+theorem dot_sub_right (u v w : V3 ℝ) : V3.dot u (v - w) = V3.dot u v - V3.dot u w := by
+  obtain ⟨x, y, z⟩ := u; obtain ⟨a, b, c⟩ := v; obtain ⟨d, e, f⟩ := w
+  simp [V3.dot]; ring
+
+theorem dot_comm (u v : V3 ℝ) : V3.dot u v = V3.dot v u := by
+  obtain ⟨x, y, z⟩ := u; obtain ⟨a, b, c⟩ := v
+  simp [V3.dot]; ring
+
+theorem edgePhase_eq (qp : V3 ℝ) (vw : V3 ℝ × V3 ℝ) :
+    edgePhase qp vw = V3.dot qp vw.1 + V3.dot qp (vw.2 - vw.1) / 2 := by
+  obtain ⟨⟨vx, vy, vz⟩, ⟨wx, wy, wz⟩⟩ := vw
+  obtain ⟨x, y, z⟩ := qp
+  unfold edgePhase
+  simp [V3.dot]; ring
+
+theorem sum_map_mul_left {β : Type} (f : β → Cx ℝ) (c : Cx ℝ) (l : List β) :
+    Cx.sum (l.map fun x => Cx.mul c (f x)) = Cx.mul c (Cx.sum (l.map f)) := by
+  induction l with
+  | nil => ext <;> simp
+  | cons a l ih => simp only [List.map_cons, Cx.sum_cons, ih]; ext <;> simp <;> ring
+
+/-- one edge: the model's term is minus `(i/|q|²)` times the specification's term -/
+theorem edgeTerm_eq_spec (n qp : V3 ℝ) (vw : V3 ℝ × V3 ℝ) :
+    edgeTerm n qp (V3.dot qp qp) vw =
+      Cx.neg (Cx.mul (Cx.sdiv Cx.I (V3.dot qp qp))
+        (Cx.smul (V3.dot qp (V3.cross (vw.2 - vw.1) n))
+          (Spec.edgeIntegral (V3.dot qp vw.1) (V3.dot qp (vw.2 - vw.1))))) := by
+  rw [edgeTerm_eq, edgePhase_eq]
+  unfold edgeAmp
+  rw [triple_swap, dot_comm (vw.2 - vw.1) qp, npSinc_eq_sinc]
+  ext <;> simp [Spec.edgeIntegral, Spec.cis, Scalar.lit] <;> ring
+
+/-- **model = boundary form**, for every vertex list, normal and in-plane wave vector -/
+theorem polygonNonzero_eq_boundary (vs : List (V3 ℝ)) (n qp : V3 ℝ) :
+    polygonNonzero vs n qp = Cx.smul (sign (signedArea vs n)) (Spec.boundaryForm vs n qp) := by
+  unfold polygonNonzero Spec.boundaryForm
+  rw [cyclicPairs_eq_edgesOf]
+  have : (edgesOf vs).map (edgeTerm n qp (V3.dot qp qp)) =
+      (edgesOf vs).map fun vw => Cx.neg (Cx.mul (Cx.sdiv Cx.I (V3.dot qp qp))
+        (Cx.smul (V3.dot qp (V3.cross (vw.2 - vw.1) n))
+          (Spec.edgeIntegral (V3.dot qp vw.1) (V3.dot qp (vw.2 - vw.1))))) :=
+    List.map_congr_left fun vw _ => edgeTerm_eq_spec n qp vw
+  rw [this, Cx.sum_map_neg, sum_map_mul_left]
+  ext <;> simp
+
+end FF
+
+/-! ### `Polygon.signed_area` is the fan (shoelace) area for planar polygons with a unit normal -/
+namespace FF
+
+theorem zip3_drop_third {β γ δ ε : Type} (h : β → γ → ε) :
+    ∀ (A : List β) (B : List γ) (C : List δ), B.length ≤ C.length →
+      (List.zip A (List.zip B C)).map (fun t => h t.1 t.2.1) = (List.zip A B).map fun s => h s.1 s.2
+  | [], _, _, _ => by simp
+  | _ :: _, [], _, _ => by simp
+  | _ :: _, _ :: _, [], hl => by simp at hl
+  | a :: A, b :: B, c :: C, hl => by
+    simp only [List.zip_cons_cons, List.map_cons]
+    rw [zip3_drop_third h A B C (by simpa using hl)]
+
+theorem zip3_drop_second {β γ δ ε : Type} (h : β → δ → ε) :
+    ∀ (A : List β) (B : List γ) (C : List δ), C.length ≤ B.length →
+      (List.zip A (List.zip B C)).map (fun t => h t.1 t.2.2) = (List.zip A C).map fun s => h s.1 s.2
+  | [], _, _, _ => by simp
+  | _ :: _, _, [], _ => by simp
+  | _ :: _, [], _ :: _, hl => by simp at hl
+  | a :: A, b :: B, c :: C, hl => by
+    simp only [List.zip_cons_cons, List.map_cons]
+    rw [zip3_drop_second h A B C (by simpa using hl)]
+
+/-- cyclic telescoping -/
+theorem cyc_sub_zero (f : V3 ℝ → ℝ) (l : List (V3 ℝ)) :
+    ((List.zip l (l.rotate 1)).map fun s => f s.1 - f s.2).sum = 0 := by
+  rw [sum_map_sub']
+  have e1 : ((List.zip l (l.rotate 1)).map fun s => f s.1) = l.map f := by
+    have := List.map_fst_zip (l₁ := l) (l₂ := l.rotate 1) (by simp)
+    conv_rhs => rw [← this, List.map_map]
+    rfl
+  have e2 : ((List.zip l (l.rotate 1)).map fun s => f s.2) = (l.rotate 1).map f := by
+    have := List.map_snd_zip (l₁ := l) (l₂ := l.rotate 1) (by simp)
+    conv_rhs => rw [← this, List.map_map]
+    rfl
+  rw [e1, e2, ((List.rotate_perm l 1).map _).sum_eq]; ring
+
+theorem saSum_eq_shoelace (c1 c2 : Nat) (l : List (V3 ℝ)) :
+    saSum c1 c2 l = ((List.zip l (l.rotate 1)).map fun s => s.1.get c1 * s.2.get c2 - s.2.get c1 * s.1.get c2).sum := by
+  unfold saSum
+  have hf : (fun t : V3 ℝ × V3 ℝ × V3 ℝ => t.1.get c1 * (t.2.1.get c2 - t.2.2.get c2)) =
+      fun t => t.1.get c1 * t.2.1.get c2 - t.1.get c1 * t.2.2.get c2 := by funext t; ring
+  rw [hf, sum_map_sub', sum_map_sub']
+  rw [zip3_drop_third (fun (a b : V3 ℝ) => a.get c1 * b.get c2) _ _ l (by simp),
+    zip3_drop_second (fun (a b : V3 ℝ) => a.get c1 * b.get c2) _ (l.rotate 2) l (by simp)]
+  congr 1
+  · have hp := zip_rotate_perm l (l.rotate 1) (by simp) 1
+    rw [List.rotate_rotate] at hp
+    exact (hp.map _).sum_eq
+  · rw [← List.zip_swap l (l.rotate 1), List.map_map]
+    rfl
+
+theorem argmaxAbs_lt (n : V3 ℝ) : argmaxAbs n < 3 := by
+  unfold argmaxAbs; simp only; split_ifs <;> omega
+
+theorem cross_get (a b : V3 ℝ) (p : Nat) (hp : p < 3) :
+    a.get ((p + 1) % 3) * b.get ((p + 2) % 3) - b.get ((p + 1) % 3) * a.get ((p + 2) % 3) =
+      (V3.cross a b).get p := by
+  obtain ⟨ax, ay, az⟩ := a; obtain ⟨bx, b_y, bz⟩ := b
+  have h3 : p = 0 ∨ p = 1 ∨ p = 2 := by omega
+  rcases h3 with h | h | h <;> subst h <;> simp [V3.get, V3.cross] <;> ring
+
+theorem cross_sub_get (a b v0 : V3 ℝ) (p : Nat) :
+    (V3.cross (a - v0) (b - v0)).get p =
+      (V3.cross a b).get p - ((V3.cross a v0).get p - (V3.cross b v0).get p) := by
+  obtain ⟨ax, ay, az⟩ := a; obtain ⟨bx, b_y, bz⟩ := b; obtain ⟨x, y, z⟩ := v0
+  unfold V3.get; split_ifs <;> simp [V3.cross] <;> ring
+
+theorem planar_cross (u w n : V3 ℝ) (hu : V3.dot u n = 0) (hw : V3.dot w n = 0) (p : Nat) :
+    (V3.cross u w).get p * V3.dot n n = V3.dot (V3.cross u w) n * n.get p := by
+  obtain ⟨ux, uy, uz⟩ := u; obtain ⟨wx, wy, wz⟩ := w; obtain ⟨nx, ny, nz⟩ := n
+  simp only [V3.dot] at hu hw
+  unfold V3.get; split_ifs <;> simp only [V3.cross, V3.dot]
+  · linear_combination (ny * wz - nz * wy) * hu - (ny * uz - nz * uy) * hw
+  · linear_combination (nz * wx - nx * wz) * hu - (nz * ux - nx * uz) * hw
+  · linear_combination (nx * wy - ny * wx) * hu - (nx * uy - ny * ux) * hw
+
+/-- **`signed_area` = fan area.** For a planar vertex list (every `v - v0 ⟂ n`) and a unit normal whose
+largest component is non-zero, the projected shoelace formula of `Polygon.signed_area` equals half the
+triangle-fan sum `Σ ((v_i - v_0) × (v_{i+1} - v_0))·n` of the specification. -/
+theorem signedArea_eq_fan (v0 : V3 ℝ) (rest : List (V3 ℝ)) (n : V3 ℝ)
+    (hplanar : ∀ v ∈ v0 :: rest, V3.dot (v - v0) n = 0) (hunit : V3.dot n n = 1)
+    (hnp : n.get (argmaxAbs n) ≠ 0) :
+    signedArea (v0 :: rest) n = Spec.fanArea2 (v0 :: rest) n / 2 := by
+  set l := v0 :: rest with hl
+  have hp := argmaxAbs_lt n
+  rw [signedArea_eq, saSum_eq_shoelace]
+  have hnorm : V3.norm (⟨|n.x|, |n.y|, |n.z|⟩ : V3 ℝ) = 1 := by
+    unfold V3.norm V3.normSq
+    have : V3.dot (⟨|n.x|, |n.y|, |n.z|⟩ : V3 ℝ) ⟨|n.x|, |n.y|, |n.z|⟩ = V3.dot n n := by
+      simp only [V3.dot, abs_mul_abs_self]
+    rw [this, hunit]; simp
+  rw [hnorm]
+  unfold Spec.fanArea2
+  simp only [hl, cyclicPairs_eq_edgesOf, Scalar.sum_real]
+  rw [← hl]
+  unfold edgesOf
+  rw [roll1_eq_rotate]
+  -- per-edge rewriting
+  have e1 : ((List.zip l (l.rotate 1)).map fun s =>
+        s.1.get ((argmaxAbs n + 1) % 3) * s.2.get ((argmaxAbs n + 2) % 3) -
+          s.2.get ((argmaxAbs n + 1) % 3) * s.1.get ((argmaxAbs n + 2) % 3)).sum =
+      ((List.zip l (l.rotate 1)).map fun s => (V3.cross (s.1 - v0) (s.2 - v0)).get (argmaxAbs n)).sum := by
+    have : ((List.zip l (l.rotate 1)).map fun s => (V3.cross (s.1 - v0) (s.2 - v0)).get (argmaxAbs n)) =
+        (List.zip l (l.rotate 1)).map fun s => (V3.cross s.1 s.2).get (argmaxAbs n) -
+          ((V3.cross s.1 v0).get (argmaxAbs n) - (V3.cross s.2 v0).get (argmaxAbs n)) :=
+      List.map_congr_left fun s _ => cross_sub_get s.1 s.2 v0 _
+    rw [this, sum_map_sub' (fun s : V3 ℝ × V3 ℝ => (V3.cross s.1 s.2).get (argmaxAbs n))
+        (fun s => (V3.cross s.1 v0).get (argmaxAbs n) - (V3.cross s.2 v0).get (argmaxAbs n)),
+      cyc_sub_zero (fun x => (V3.cross x v0).get (argmaxAbs n)) l, sub_zero]
+    congr 1
+    exact List.map_congr_left fun s _ => cross_get s.1 s.2 _ hp
+  rw [e1]
+  have e2 : ((List.zip l (l.rotate 1)).map fun s => (V3.cross (s.1 - v0) (s.2 - v0)).get (argmaxAbs n)).sum =
+      ((List.zip l (l.rotate 1)).map ((fun p : V3 ℝ × V3 ℝ => V3.dot (V3.cross (p.1 - v0) (p.2 - v0)) n))).sum *
+        n.get (argmaxAbs n) := by
+    rw [mul_comm, ← sum_map_mul']
+    congr 1
+    apply List.map_congr_left
+    intro s hs
+    have h1 : s.1 ∈ l := (List.of_mem_zip hs).1
+    have h2 : s.2 ∈ l := by
+      have := (List.of_mem_zip hs).2
+      exact List.mem_rotate.mp this
+    have := planar_cross (s.1 - v0) (s.2 - v0) n (hplanar _ h1) (hplanar _ h2) (argmaxAbs n)
+    rw [hunit, mul_one] at this
+    rw [this]; ring
+  rw [e2]
+  field_simp
+
+end FF
+
+namespace FF
+
+theorem argmax_ne_zero (n : V3 ℝ) (hunit : V3.dot n n = 1) : n.get (argmaxAbs n) ≠ 0 := by
+  obtain ⟨x, y, z⟩ := n
+  simp only [V3.dot] at hunit
+  unfold argmaxAbs
+  simp only [Scalar.abs_real]
+  intro h0
+  split_ifs at h0 with h1 h2
+  · simp only [V3.get_zero] at h0
+    subst h0
+    obtain ⟨ha, hb⟩ := h1
+    simp only [abs_zero, abs_nonpos_iff] at ha hb
+    subst ha; subst hb; norm_num at hunit
+  · simp only [V3.get_one] at h0
+    subst h0
+    simp only [abs_zero, abs_nonpos_iff] at h2
+    subst h2
+    simp only [abs_zero] at h1
+    exact h1 ⟨abs_nonneg x, abs_nonneg x⟩
+  · simp only [V3.get_two] at h0
+    subst h0
+    simp only [abs_zero, not_le] at h2
+    exact absurd h2 (not_lt.mpr (abs_nonneg y))
+
+/-- model amplitude of the sphere outside the zero window is the spherical Bessel form -/
+theorem sphere_amp_eq (r qsq : ℝ) (hr : r ≠ 0) (hq : 0 < qsq) :
+    (4 * Real.pi * r * (npSinc (Real.sqrt qsq * r / Real.pi) - Real.cos (Real.sqrt qsq * r))) / qsq =
+      4 * Real.pi * (Real.sin (Real.sqrt qsq * r) - Real.sqrt qsq * r * Real.cos (Real.sqrt qsq * r)) /
+        (Real.sqrt qsq * Real.sqrt qsq * Real.sqrt qsq) := by
+  have hs : Real.sqrt qsq ≠ 0 := (Real.sqrt_pos.mpr hq).ne'
+  have hpi : Real.pi ≠ 0 := Real.pi_ne_zero
+  have hx : Real.sqrt qsq * r / Real.pi ≠ 0 := by
+    apply div_ne_zero (mul_ne_zero hs hr) hpi
+  rw [npSinc_of_ne hx]
+  have e : Real.pi * (Real.sqrt qsq * r / Real.pi) = Real.sqrt qsq * r := by field_simp
+  rw [e]
+  have hsq : Real.sqrt qsq * Real.sqrt qsq = qsq := Real.mul_self_sqrt hq.le
+  rw [hsq]
+  have hq0 : qsq ≠ 0 := hq.ne'
+  field_simp
+
+end FF
+
+namespace FF
+
+theorem isCloseZero_iff (x : ℝ) : isCloseZero x = true ↔ |x| ≤ 1 / 100000000 := by
+  simp [isCloseZero, Scalar.q]
+
+theorem isCloseZero_zero : isCloseZero (0 : ℝ) = true := by
+  rw [isCloseZero_iff]; norm_num
+
+theorem sign_half (a : ℝ) : sign (a / 2) = Spec.orient_of a := by
+  unfold sign Spec.orient_of
+  simp only [Scalar.lit, Scalar.ofNat_real, Nat.cast_zero, Nat.cast_one]
+  have h1 : a / 2 < 0 ↔ a < 0 := by constructor <;> intro h <;> linarith
+  have h2 : 0 < a / 2 ↔ 0 < a := by constructor <;> intro h <;> linarith
+  simp only [h1, h2]
+
+end FF
